@@ -48,12 +48,16 @@ UnitConfigs == <<
 \* accuracy the property states: exact for model isotherms, interpolation accuracy for sampled ones
 Tol(kind) == IF kind = "model" THEN DTol(6) ELSE DTol(2)
 
+\* decimal magnitude of the affinity at 298 K (1/bar): the whole set of isotherms rescaled in pressure by 10^-pmag
+\* (equilibrium pressures from ~1e-13 bar to ~1e5 bar); dH does not depend on it
+PMags == <<0, 6, 10, -3>>
 IsoScenarios ==
    LET subs == SetToSortSeq(Subsets, LAMBDA A, B : Cardinality(A) < Cardinality(B) \/ (Cardinality(A) = Cardinality(B) /\ Asc(A) # Asc(B) /\
                                                   LET d == CHOOSE i \in 1..Len(Asc(A)) : Asc(A)[i] # Asc(B)[i] /\ \A j \in 1..(i - 1) : Asc(A)[j] = Asc(B)[j]
                                                   IN Asc(A)[d] < Asc(B)[d]))
    IN [h \in 1..Len(DHs), s \in 1..Len(subs), o \in 1..3, g \in 1..3, k \in 1..2, u \in 1..Len(UnitConfigs) |->
-         [dH |-> DHs[h], temps |-> Ordered(subs[s], OrderKinds[o]), order |-> OrderKinds[o], gen |-> Generators[g], kind |-> Kinds[k], units |-> UnitConfigs[u]]]
+         [dH |-> DHs[h], temps |-> Ordered(subs[s], OrderKinds[o]), order |-> OrderKinds[o], gen |-> Generators[g], kind |-> Kinds[k], units |-> UnitConfigs[u],
+          pmag |-> LET m == PMags[((h + s + o + g + k + u) % 4) + 1] IN IF UnitConfigs[u].pressure_mode = "absolute" \/ m >= 0 THEN m ELSE 0]]
 
 \* q: [dH : integer kJ/mol; kind; nreq : number of loading points requested; h : returned enthalpies (kJ/mol);
 \*     slopes : returned slopes of ln p against 1/T]
@@ -84,13 +88,15 @@ Theta(q, k) == DDiv(q.n[k], q.nm)
 \* (for Langmuir, t = 1, the root is 1 - theta and is computed here; for Toth the real power is harness input)
 Root(q, k) == IF q.model = "Langmuir" THEN DSub(One, Theta(q, k)) ELSE q.root[k]
 PressureOf(q, k) == DDiv(Theta(q, k), DMul(KPa(q), Root(q, k)))
-RootOk(q) == q.model = "Langmuir" => \A k \in Idx(q.n) : q.n[k][1] = 0 \/ DCloseAbs(q.root[k], DSub(One, Theta(q, k)), DTol(4), DL(1, -9))
+RootOk(q) == q.model = "Langmuir" => \A k \in Idx(q.n) : q.n[k][1] = 0 \/ DLeq(q.nm, q.n[k]) \/ DCloseAbs(q.root[k], DSub(One, Theta(q, k)), DTol(4), DL(1, -9))
 PHi(q) == IF DLeq(q.psat, q.pc) THEN q.psat ELSE q.pc
 Margin == DL(1, -5)
 Up(x) == DMul(x, DAdd(One, Margin))
 Down(x) == DMul(x, DSub(One, Margin))
 \* class of a loading: where its pressure lies relative to the range in which a vaporisation enthalpy exists
 \*   "zero"    n = 0
+\*   "nopressure"  n >= n_m: the description has no positive equilibrium pressure there (negative / undefined), the closed
+\*             form is not defined -> must be omitted
 \*   "below"   p < p_triple                     (library documents: h_vap taken at the triple point) 
 \*   "inside"  p_triple <= p <= min(p_sat, p_c)  -> must be reported
 \*   "between" p_sat < p <= p_c                  (beyond saturation at T: may be omitted)
@@ -103,7 +109,7 @@ ClassP(p, pt, psat, pc) ==
    ELSE IF DLt(Up(hi), p) /\ DLeq(p, Down(pc)) THEN "between"
    ELSE IF DLt(Up(pc), p) THEN "above"
    ELSE "edge"
-Class(q, k) == IF q.n[k][1] = 0 THEN "zero" ELSE ClassP(PressureOf(q, k), q.pt, q.psat, q.pc)
+Class(q, k) == IF q.n[k][1] = 0 THEN "zero" ELSE IF DLeq(q.nm, q.n[k]) THEN "nopressure" ELSE ClassP(PressureOf(q, k), q.pt, q.psat, q.pc)
 RT(q) == DMul(Rgas, q.T)
 \* closed form in kJ/mol with a given vaporisation enthalpy (kJ/mol)
 Closed(q, k, hv) == DDiv(DAdd(DAdd(DMul(RT(q), q.lnterm[k]), DMul(hv, DInt(1000))), RT(q)), DInt(1000))
@@ -121,6 +127,7 @@ WhitJudge(q) ==
                    [] cls[k] = "below" -> IF pos[k] = 0 \/ ValOk(k, q.hvap_t) THEN "" ELSE "value is not lambda + h_vap(triple point) + RT"
                    [] cls[k] = "between" -> IF pos[k] = 0 \/ ValOk(k, q.hvap[k]) THEN "" ELSE "value is not lambda + h_vap + RT"
                    [] cls[k] = "above" -> IF pos[k] = 0 THEN "" ELSE "reported although no vaporisation enthalpy exists above the critical pressure"
+                   [] cls[k] = "nopressure" -> IF pos[k] = 0 THEN "" ELSE "reported although the description has no positive pressure at this loading"
                    [] cls[k] = "zero" -> ""
                    [] cls[k] = "edge" -> ""
    IN [input_ok |-> RootOk(q), subseq |-> subseq, cls |-> cls,
